@@ -320,9 +320,14 @@ pub fn execute_sequences(scratch: &mut DecoderScratch) -> (r: Result<(), Execute
     }
 
     let diff = scratch.buffer.len() - old_buffer_size;
-    assert(seq_sum as usize == diff);
+    let verif_assert_cond_1: bool = seq_sum as usize == diff; assert(verif_assert_cond_1);
     Ok(())
 }
 
+pub proof fn verif_canary_must_fail(x: int)
+    requires x > 0,
+    ensures x > 1,
+{
+}
 } // verus!
 fn main() {}
